@@ -74,6 +74,7 @@ type Prog struct {
 	cg      *callgraph.Graph
 	chaG    *callgraph.Graph
 	LoadS   float64
+	mr      *modref
 }
 
 func sha(path string) string {
